@@ -49,6 +49,10 @@ OpClearQ  == /\ A.live /\ Cls \in {"objpair", "tok", "url"} /\ (IsUrl => A.p # 0
              /\ Step("clear_q", <<>>, TRUE, [A EXCEPT !.q = Cleared], B)
 OpBClearQ == /\ B.live /\ Cls \in {"objpair", "tok", "url"} /\ (IsUrl => B.p # 0)
              /\ Step("b_clear_q", <<>>, TRUE, A, [B EXCEPT !.q = Cleared])
+\* the FIRST component is cleared the same way (a pair without key, a tokenizer without source: eval is then refused
+\* and must leave the token list of an earlier evaluation alone)
+OpClearP  == /\ A.live /\ Cls \in {"objpair", "tok"} /\ Step("clear_p", <<>>, TRUE, [A EXCEPT !.p = 0], B)
+OpBClearP == /\ B.live /\ Cls \in {"objpair", "tok"} /\ Step("b_clear_p", <<>>, TRUE, A, [B EXCEPT !.p = 0])
 OpSetFlags(f) == /\ A.live /\ IsRe /\ A.p # 0 /\ Step("set_flags", <<f>>, TRUE, [A EXCEPT !.q = f], B)
 OpGetP == /\ A.live /\ Step("get_p", <<>>, A.p, A, B)
 OpGetQ == /\ A.live /\ Step("get_q", <<>>, A.q, A, B)
@@ -72,6 +76,11 @@ OpBStrTrim == /\ B.live /\ IsStrSub /\ Step("b_str_trim", <<>>, TRUE, A, AfterTr
 \* leaves the value - and the class - as it was
 RoundTrips == {"case", "reverse", "append", "prepend", "splice"}
 OpStrRound(m) == /\ A.live /\ IsStrSub /\ A.p # 0 /\ Step("str_round", <<m>>, TRUE, A, B)
+\* the empty text has two representations: absent (after done / trim) and PRESENT BUT EMPTY - cut away every character with
+\* the parent's splice, or construct the object from "".  Both read as p = 0.
+OpStrCut   == /\ A.live /\ IsStrSub /\ A.p # 0 /\ Step("str_cut", <<>>, TRUE, AfterTrim([A EXCEPT !.p = 1]), B)
+OpBStrCut  == /\ B.live /\ IsStrSub /\ B.p # 0 /\ Step("b_str_cut", <<>>, TRUE, A, AfterTrim([B EXCEPT !.p = 1]))
+OpNewEmpty == /\ ~A.live /\ IsStrSub /\ Step("new_empty", <<>>, TRUE, Obj(0, 0, 0), B)
 
 (* the object protocol *)
 OpDup  == /\ A.live /\ ~B.live /\ Step("dup", <<>>, TRUE, A, A)
@@ -94,7 +103,8 @@ OpCompRev == /\ A.live /\ B.live /\ (Cls \in {"url", "regexp"} => (A.p # 0 /\ B.
 OpCompNull == /\ A.live /\ Step("comp_null", <<>>, 1, A, B)                 \* NULL is below every object
 
 Init == A = Dead /\ B = Dead
-Next == \/ OpStrTrim \/ OpBStrTrim \/ (\E m \in RoundTrips : OpStrRound(m))
+Next == \/ OpClearP \/ OpBClearP \/ OpStrCut \/ OpBStrCut \/ OpNewEmpty
+        \/ OpStrTrim \/ OpBStrTrim \/ (\E m \in RoundTrips : OpStrRound(m))
         \/ OpClearQ \/ OpBClearQ \/ OpNew \/ OpGetP \/ OpGetQ \/ OpEval \/ OpDup \/ OpDone \/ OpDel \/ OpBDel \/ OpBDone \/ OpBEval \/ OpAdopt
         \/ OpComp \/ OpCompRev \/ OpCompNull
         \/ \E t \in T : OpNewFromPtr(t) \/ OpNewFromKey(t) \/ OpNewFromValue(t) \/ OpSetP(t) \/ OpSetQ(t) \/ OpBSetQ(t)
